@@ -1,5 +1,1167 @@
-//! Conformance harness for specification-growth module g14 (see /verif/DESIGN.md 12.6).
+//! Conformance harness for the specification-growth module G14 (signal
+//! catalogue; names <-> numbers <-> conditions <-> exit statuses; the naming
+//! layer of `kill` and `trap`).  Oracle: spec/SigNames.tla.
+//!
+//!   yv-g14 platform --sys sim|real
+//!       measures the platform record of the system (names and numbers from
+//!       a source independent of the `Signals` implementation under test: the
+//!       public constants of the simulated system / the libc constants, the
+//!       realtime range, the numbers kill() accepts) and prints it as JSON.
+//!   yv-g14 replay --sys S --platform F --in cases.ndjson --out records.ndjson
+//!       runs every case printed by Gen_SigNames.tla and records the
+//!       observation (judged by Trace_SigNames.tla).
+//!   yv-g14 random --sys S --platform F --n N --out records.ndjson
+//!       seeded random kill / trap command lines and API calls, recorded the
+//!       same way.
+//!
+//! Shell-level cases run in the real shell: on the simulated OS through
+//! `yvcommon::shell::run_shell`, on the real kernel through the mirror runner
+//! inside a fresh PID namespace (so that no command line, however it is
+//! parsed, can signal a process outside the arena).  What a `kill` delivers is
+//! observed on sacrificial processes that block every signal: the pending set
+//! (simulated: the process table; real: /proc/<pid>/status) and the wait
+//! status for KILL / STOP.
+use rand::rngs::StdRng;
+use rand::{Rng, SeedableRng};
+use serde_json::{Value, json};
+use std::io::{BufRead, Write};
+use std::pin::Pin;
+use std::rc::Rc;
+use yash_cli::startup::args::Parse;
+use yash_env::Env;
+use yash_env::RealSystem;
+use yash_env::VirtualSystem;
+use yash_env::builtin::{Builtin, Result as BResult, Type};
+use yash_env::io::Fd;
+use yash_env::job::{Pid, ProcessResult, ProcessState};
+use yash_env::semantics::{ExitStatus, Field, exit_or_raise};
+use yash_env::signal::{Name, Number};
+use yash_env::system::r#virtual as vs;
+use yash_env::system::{Concurrent, SigmaskOp, Signals, Sigset as _};
+use yash_env::trap::Condition;
+use yash_env::variable::Scope;
+use yvcommon::real::{RealCfg, run_real};
+use yvcommon::sched::Outcome;
+use yvcommon::shell::{ShellCfg, ShellSystem, Sys, register_generic_probes, run_shell, shell_body};
+use yvcommon::util::{catch, opt, opt_usize, quiet_panics, seed};
+
+// ---------------------------------------------------------------------------
+// the catalogue as the platform defines it (not through `Signals`)
+// ---------------------------------------------------------------------------
+const POSIX_NAMES: [&str; 27] = [
+    "ABRT", "ALRM", "BUS", "CHLD", "CONT", "FPE", "HUP", "ILL", "INT", "KILL", "PIPE", "QUIT", "SEGV", "STOP", "TERM", "TSTP", "TTIN",
+    "TTOU", "USR1", "USR2", "WINCH", "SYS", "TRAP", "URG", "VTALRM", "XCPU", "XFSZ",
+];
+
+fn sim_table() -> Vec<(&'static str, i32)> {
+    vec![
+        ("ABRT", vs::SIGABRT.as_raw()),
+        ("ALRM", vs::SIGALRM.as_raw()),
+        ("BUS", vs::SIGBUS.as_raw()),
+        ("CHLD", vs::SIGCHLD.as_raw()),
+        ("CLD", vs::SIGCLD.as_raw()),
+        ("CONT", vs::SIGCONT.as_raw()),
+        ("EMT", vs::SIGEMT.as_raw()),
+        ("FPE", vs::SIGFPE.as_raw()),
+        ("HUP", vs::SIGHUP.as_raw()),
+        ("ILL", vs::SIGILL.as_raw()),
+        ("INFO", vs::SIGINFO.as_raw()),
+        ("INT", vs::SIGINT.as_raw()),
+        ("IO", vs::SIGIO.as_raw()),
+        ("IOT", vs::SIGIOT.as_raw()),
+        ("KILL", vs::SIGKILL.as_raw()),
+        ("LOST", vs::SIGLOST.as_raw()),
+        ("PIPE", vs::SIGPIPE.as_raw()),
+        ("POLL", vs::SIGPOLL.as_raw()),
+        ("PROF", vs::SIGPROF.as_raw()),
+        ("PWR", vs::SIGPWR.as_raw()),
+        ("QUIT", vs::SIGQUIT.as_raw()),
+        ("SEGV", vs::SIGSEGV.as_raw()),
+        ("STKFLT", vs::SIGSTKFLT.as_raw()),
+        ("STOP", vs::SIGSTOP.as_raw()),
+        ("SYS", vs::SIGSYS.as_raw()),
+        ("TERM", vs::SIGTERM.as_raw()),
+        ("THR", vs::SIGTHR.as_raw()),
+        ("TRAP", vs::SIGTRAP.as_raw()),
+        ("TSTP", vs::SIGTSTP.as_raw()),
+        ("TTIN", vs::SIGTTIN.as_raw()),
+        ("TTOU", vs::SIGTTOU.as_raw()),
+        ("URG", vs::SIGURG.as_raw()),
+        ("USR1", vs::SIGUSR1.as_raw()),
+        ("USR2", vs::SIGUSR2.as_raw()),
+        ("VTALRM", vs::SIGVTALRM.as_raw()),
+        ("WINCH", vs::SIGWINCH.as_raw()),
+        ("XCPU", vs::SIGXCPU.as_raw()),
+        ("XFSZ", vs::SIGXFSZ.as_raw()),
+    ]
+}
+
+/// <signal.h> of this platform as the libc crate transcribes it (Linux).
+#[cfg(target_os = "linux")]
+fn real_table() -> Vec<(&'static str, i32)> {
+    vec![
+        ("ABRT", libc::SIGABRT),
+        ("ALRM", libc::SIGALRM),
+        ("BUS", libc::SIGBUS),
+        ("CHLD", libc::SIGCHLD),
+        ("CONT", libc::SIGCONT),
+        ("FPE", libc::SIGFPE),
+        ("HUP", libc::SIGHUP),
+        ("ILL", libc::SIGILL),
+        ("INT", libc::SIGINT),
+        ("IO", libc::SIGIO),
+        ("IOT", libc::SIGIOT),
+        ("KILL", libc::SIGKILL),
+        ("PIPE", libc::SIGPIPE),
+        ("POLL", libc::SIGPOLL),
+        ("PROF", libc::SIGPROF),
+        ("PWR", libc::SIGPWR),
+        ("QUIT", libc::SIGQUIT),
+        ("SEGV", libc::SIGSEGV),
+        ("STKFLT", libc::SIGSTKFLT),
+        ("STOP", libc::SIGSTOP),
+        ("SYS", libc::SIGSYS),
+        ("TERM", libc::SIGTERM),
+        ("TRAP", libc::SIGTRAP),
+        ("TSTP", libc::SIGTSTP),
+        ("TTIN", libc::SIGTTIN),
+        ("TTOU", libc::SIGTTOU),
+        ("URG", libc::SIGURG),
+        ("USR1", libc::SIGUSR1),
+        ("USR2", libc::SIGUSR2),
+        ("VTALRM", libc::SIGVTALRM),
+        ("WINCH", libc::SIGWINCH),
+        ("XCPU", libc::SIGXCPU),
+        ("XFSZ", libc::SIGXFSZ),
+    ]
+}
+
+fn block_all_and_sleep() -> ! {
+    unsafe {
+        let mut set: libc::sigset_t = std::mem::zeroed();
+        libc::sigfillset(&mut set);
+        libc::sigprocmask(libc::SIG_SETMASK, &set, std::ptr::null_mut());
+        loop {
+            libc::sleep(1000);
+        }
+    }
+}
+
+/// Forks a process that blocks every signal and sleeps; optionally in the
+/// process group `pgid` (0: a group of its own).
+fn spawn_victim(pgid: i32) -> i32 {
+    unsafe {
+        // the mask is inherited: no window in which the child is unprotected
+        let mut all: libc::sigset_t = std::mem::zeroed();
+        let mut old: libc::sigset_t = std::mem::zeroed();
+        libc::sigfillset(&mut all);
+        libc::sigprocmask(libc::SIG_SETMASK, &all, &mut old);
+        let pid = libc::fork();
+        if pid == 0 {
+            libc::setpgid(0, pgid);
+            block_all_and_sleep();
+        }
+        libc::sigprocmask(libc::SIG_SETMASK, &old, std::ptr::null_mut());
+        if pid > 0 {
+            libc::setpgid(pid, if pgid == 0 { pid } else { pgid });
+        }
+        pid
+    }
+}
+
+/// (state, pending numbers) of a sacrificial process of this process.
+fn observe_victim(pid: i32) -> (String, Vec<i64>) {
+    let mut status: libc::c_int = 0;
+    let r = unsafe { libc::waitpid(pid, &mut status, libc::WNOHANG | libc::WUNTRACED) };
+    let mut state = "run".to_string();
+    if r == pid {
+        if libc::WIFSIGNALED(status) {
+            return (format!("sig:{}", libc::WTERMSIG(status)), vec![]);
+        } else if libc::WIFEXITED(status) {
+            return (format!("exit:{}", libc::WEXITSTATUS(status)), vec![]);
+        } else if libc::WIFSTOPPED(status) {
+            state = format!("stop:{}", libc::WSTOPSIG(status));
+        }
+    }
+    let mut pend = vec![];
+    if let Ok(text) = std::fs::read_to_string(format!("/proc/{pid}/status")) {
+        let mut mask: u64 = 0;
+        for line in text.lines() {
+            if let Some(rest) = line.strip_prefix("SigPnd:").or_else(|| line.strip_prefix("ShdPnd:")) {
+                mask |= u64::from_str_radix(rest.trim(), 16).unwrap_or(0);
+            }
+        }
+        for n in 1..=64 {
+            if mask & (1u64 << (n - 1)) != 0 {
+                pend.push(n as i64);
+            }
+        }
+    } else {
+        state = "gone".to_string();
+    }
+    (state, pend)
+}
+
+fn reap_victim(pid: i32) {
+    unsafe {
+        libc::kill(pid, libc::SIGKILL);
+        let mut status = 0;
+        libc::waitpid(pid, &mut status, 0);
+    }
+}
+
+fn platform(sys: &str) -> Value {
+    let (table, rtmin, rtmax, kacc): (Vec<(&str, i32)>, i32, i32, Vec<i64>) = if sys == "sim" {
+        let t = sim_table();
+        let (lo, hi) = (vs::SIGRTMIN.as_raw(), vs::SIGRTMAX.as_raw());
+        // The simulated kernel has no table of its own apart from these
+        // constants: a POSIX kill() accepts 0 and the signals of the system.
+        let mut k: Vec<i64> = vec![0];
+        k.extend(t.iter().map(|(_, v)| *v as i64));
+        k.extend((lo..=hi).map(|v| v as i64));
+        k.sort();
+        k.dedup();
+        (t, lo, hi, k)
+    } else {
+        let t = real_table();
+        let (lo, hi) = (libc::SIGRTMIN(), libc::SIGRTMAX());
+        // which numbers does kill(2) take?  asked of a process of our own
+        let v = spawn_victim(0);
+        assert!(v > 0, "fork");
+        let mut k = vec![];
+        for n in 0..=(hi + 2) {
+            if n == libc::SIGKILL {
+                continue;
+            }
+            if unsafe { libc::kill(v, n) } == 0 {
+                k.push(n as i64);
+            }
+        }
+        if unsafe { libc::kill(v, libc::SIGKILL) } == 0 {
+            k.push(libc::SIGKILL as i64);
+        }
+        let mut st = 0;
+        unsafe { libc::waitpid(v, &mut st, 0) };
+        k.sort();
+        (t, lo, hi, k)
+    };
+    let mut names: Vec<Value> = table.iter().map(|(n, v)| json!({"n": n, "v": v, "req": POSIX_NAMES.contains(n)})).collect();
+    names.sort_by(|a, b| a["n"].as_str().cmp(&b["n"].as_str()));
+    json!({"sys": sys, "names": names, "rtmin": rtmin, "rtmax": rtmax, "kacc": kacc, "maxn": rtmax + 2})
+}
+
+// ---------------------------------------------------------------------------
+// cases and observations
+// ---------------------------------------------------------------------------
+#[derive(Clone, Debug)]
+struct Case {
+    fam: String,
+    po: bool,
+    w: Vec<String>,
+    op: String,
+    t: String,
+    n: i64,
+    xk: String,
+}
+
+fn strs(v: &Value) -> Vec<String> {
+    match v {
+        Value::Array(a) => a.iter().map(|s| s.as_str().unwrap_or("").to_string()).collect(),
+        // TLC prints a function with domain 1..n as an object
+        Value::Object(m) => {
+            let mut ks: Vec<(usize, String)> = m.iter().map(|(k, v)| (k.parse().unwrap_or(0), v.as_str().unwrap_or("").to_string())).collect();
+            ks.sort();
+            ks.into_iter().map(|(_, s)| s).collect()
+        }
+        _ => vec![],
+    }
+}
+
+fn case_of(v: &Value) -> Case {
+    Case {
+        fam: v["fam"].as_str().unwrap_or("").to_string(),
+        po: v["po"].as_bool().unwrap_or(false),
+        w: strs(&v["w"]),
+        op: v["op"].as_str().unwrap_or("").to_string(),
+        t: v["t"].as_str().unwrap_or("").to_string(),
+        n: v["n"].as_i64().unwrap_or(0),
+        xk: v["xk"].as_str().unwrap_or("").to_string(),
+    }
+}
+
+#[derive(Clone, Debug, Default)]
+struct Obs {
+    done: bool,
+    st: i64,
+    err: bool,
+    out: Vec<Vec<String>>,
+    recv: Vec<Value>,
+    st2: i64,
+    out2: Vec<Vec<String>>,
+    r: i64,
+    s: Vec<String>,
+    note: String,
+}
+
+fn record(sys: &str, from: &str, c: &Case, o: &Obs) -> Value {
+    json!({"sys": sys, "from": from, "fam": c.fam, "po": c.po, "w": c.w, "op": c.op, "t": c.t, "n": c.n, "xk": c.xk,
+           "o": {"done": o.done, "st": o.st, "err": o.err, "out": o.out, "recv": o.recv, "st2": o.st2, "out2": o.out2,
+                 "r": o.r, "s": o.s}, "note": o.note})
+}
+
+// ---------------------------------------------------------------------------
+// the API of the system object
+// ---------------------------------------------------------------------------
+fn num_of(n: i64) -> Option<Number> {
+    let raw: i32 = n.try_into().ok()?;
+    std::num::NonZero::new(raw).map(Number::from_raw_unchecked)
+}
+
+fn api_op<S: Signals>(system: &S, sys: &str, c: &Case) -> Obs {
+    let mut o = Obs { done: true, r: -1, st2: -1, ..Default::default() };
+    let t = c.t.as_str();
+    let n = c.n;
+    let raw: i32 = n.try_into().unwrap_or(i32::MAX);
+    match c.op.as_str() {
+        "str2sig" => o.r = system.str2sig(t).map_or(-1, |x| x.as_raw() as i64),
+        "sig2str" => o.s = system.sig2str(raw).into_iter().map(|s| s.into_owned()).collect(),
+        "tosignum" => o.r = system.to_signal_number(raw).map_or(-1, |x| x.as_raw() as i64),
+        "validate" => {
+            if let Some((name, number)) = system.validate_signal(raw) {
+                o.r = number.as_raw() as i64;
+                o.s = vec![name.as_string().into_owned()];
+            }
+        }
+        "fromstr" => o.s = t.parse::<Name>().ok().map(|nm| nm.as_string().into_owned()).into_iter().collect(),
+        "numfromname" => {
+            o.r = match t.parse::<Name>() {
+                Ok(nm) => system.signal_number_from_name(nm).map_or(-1, |x| x.as_raw() as i64),
+                Err(_) => -77,
+            }
+        }
+        "parsesig0" | "parsesig1" => {
+            o.r = yash_builtin::kill::syntax::parse_signal(system, t, c.op == "parsesig1").map_or(-1000, |x| x as i64);
+        }
+        "tosignal0" | "tosignal1" => {
+            if let Some((name, number)) = ExitStatus(raw).to_signal(system, c.op == "tosignal1") {
+                o.r = number.as_raw() as i64;
+                o.s = vec![name.into_owned()];
+            }
+        }
+        "fromsignal" => o.r = num_of(n).map_or(-1, |x| ExitStatus::from(x).0 as i64),
+        "conditer" => {
+            o.out = Condition::iter(system).map(|cnd| vec![i32::from(cnd).to_string(), cnd.to_string(system).into_owned()]).collect();
+        }
+        "named" => {
+            o.out = S::NAMED_SIGNALS.iter().map(|(nm, v)| vec![nm.to_string(), v.map_or("-".to_string(), |x| x.as_raw().to_string())]).collect();
+        }
+        "itersigrt" => o.out = system.iter_sigrt().map(|x| vec![x.as_raw().to_string()]).collect(),
+        "nameiter" => o.s = Name::iter().map(|nm| nm.as_string().into_owned()).collect(),
+        "effect" if sys == "sim" => {
+            if let Some(num) = num_of(n) {
+                let mut p = vs::Process::with_parent_and_group(Pid(1), Pid(77));
+                let _ = p.raise_signal(num);
+                let e = match p.state() {
+                    ProcessState::Halted(ProcessResult::Signaled { signal, core_dump }) if signal == num => {
+                        if core_dump { "A" } else { "T" }
+                    }
+                    ProcessState::Halted(ProcessResult::Stopped(signal)) if signal == num => "S",
+                    ProcessState::Running => {
+                        // does it resume a stopped process?
+                        let mut q = vs::Process::with_parent_and_group(Pid(1), Pid(77));
+                        let _ = q.set_state(ProcessState::stopped(vs::SIGSTOP));
+                        let _ = q.raise_signal(num);
+                        if q.state() == ProcessState::Running { "C" } else { "I" }
+                    }
+                    _ => "other",
+                };
+                o.s = vec![e.to_string()];
+            }
+        }
+        other => o.note = format!("unknown op {other}"),
+    }
+    o
+}
+
+fn run_api(sys: &str, c: &Case) -> Obs {
+    let c2 = c.clone();
+    let sys2 = sys.to_string();
+    let r = if sys == "sim" {
+        catch(move || api_op(&VirtualSystem::new(), &sys2, &c2))
+    } else {
+        // SAFETY: only the name / number tables of the object are used
+        catch(move || api_op(&unsafe { RealSystem::new() }, &sys2, &c2))
+    };
+    match r {
+        Ok(o) => o,
+        Err(msg) => Obs { done: false, st: -1, st2: -1, r: -1, note: format!("panic: {msg}"), ..Default::default() },
+    }
+}
+
+// ---------------------------------------------------------------------------
+// built-ins of the harness
+// ---------------------------------------------------------------------------
+/// `mark`: writes `@@<$?>@@` as a line to standard output and `@@` to standard
+/// error (so that the output of every command can be cut out) and assigns the
+/// status to the variable `m`.
+fn mark_main<S: ShellSystem>(env: &mut Env<S>, _args: Vec<Field>) -> Pin<Box<dyn Future<Output = BResult> + '_>> {
+    Box::pin(async move {
+        let st = env.exit_status.0;
+        env.variables.get_or_new("m", Scope::Global).assign(st.to_string(), None).ok();
+        let _ = env.system.write_all(Fd::STDOUT, format!("@@{st}@@\n").as_bytes()).await;
+        let _ = env.system.write_all(Fd::STDERR, b"@@\n").await;
+        BResult::new(ExitStatus(0))
+    })
+}
+
+/// `mypid`: assigns the process ID of the process that runs it to `p`.
+fn mypid_main<S: ShellSystem>(env: &mut Env<S>, _args: Vec<Field>) -> Pin<Box<dyn Future<Output = BResult> + '_>> {
+    Box::pin(async move {
+        let pid = env.system.getpid();
+        env.variables.get_or_new("p", Scope::Global).assign(pid.0.to_string(), None).ok();
+        BResult::new(ExitStatus(0))
+    })
+}
+
+fn register<S: ShellSystem>(env: &mut Env<S>) {
+    env.builtins.insert("mark", Builtin::new(Type::Mandatory, mark_main::<S>));
+    env.builtins.insert("mypid", Builtin::new(Type::Mandatory, mypid_main::<S>));
+}
+
+/// The shell child on the real OS: the mirror runner plus the harness built-ins.
+fn real_shell_child() -> ! {
+    // SAFETY: single-threaded at this point
+    unsafe {
+        std::env::remove_var("YV_EVENTS");
+        std::env::remove_var("YV_CHILD");
+        std::env::remove_var("YV_G14");
+        // every disposition as a freshly logged-in process has it, no core files
+        for n in 1..=64 {
+            if n != libc::SIGKILL && n != libc::SIGSTOP {
+                libc::signal(n, libc::SIG_DFL);
+            }
+        }
+        let lim = libc::rlimit { rlim_cur: 0, rlim_max: 0 };
+        libc::setrlimit(libc::RLIMIT_CORE, &lim);
+    }
+    // SAFETY: the only RealSystem in this process
+    let system = unsafe { RealSystem::new() };
+    let system = Rc::new(Concurrent::new(system));
+    let runner = Rc::clone(&system);
+    let task = async {
+        let mut env = Env::with_system(system);
+        match yash_cli::startup::args::parse(std::env::args()) {
+            Ok(Parse::Run(run)) => {
+                env.variables.extend_env(std::env::vars());
+                shell_body(&mut env, run, |env| {
+                    register_generic_probes(env);
+                    register(env);
+                })
+                .await;
+            }
+            _ => env.exit_status = ExitStatus(2),
+        }
+        exit_or_raise(&env.system, env.exit_status).await
+    };
+    runner.run_real(task)
+}
+
+// ---------------------------------------------------------------------------
+// rendering and running shell-level cases
+// ---------------------------------------------------------------------------
+fn quote(a: &str) -> String {
+    format!("'{}'", a.replace('\'', "'\\''"))
+}
+
+/// Process IDs behind the symbolic targets of one case.
+#[derive(Clone, Copy, Debug, Default)]
+struct Pids {
+    v1: i32,
+    v2: i32,
+    v3: i32,
+    none: i32,
+}
+
+fn is_numeric(w: &str) -> bool {
+    let b = w.strip_prefix(['+', '-']).unwrap_or(w);
+    !b.is_empty() && b.chars().all(|ch| ch.is_ascii_digit())
+}
+
+/// A kill command line is only run if no word that looks like a number can
+/// be taken for a target: a numeric word is an option (`-15`, before the first
+/// operand) or the argument of `-s` / `-n`; targets come from tokens only.
+fn safe_kill_words(w: &[String]) -> bool {
+    let mut opts = true;
+    let mut prev_takes_arg = false;
+    for a in w {
+        let takes_arg = opts && (a == "-s" || a == "-n");
+        if a.starts_with('@') || a == "--" {
+            opts = false;
+        } else if is_numeric(a) {
+            if !(prev_takes_arg || (opts && a.starts_with('-'))) {
+                return false;
+            }
+        } else if opts && !prev_takes_arg && (!a.starts_with('-') || a == "-") {
+            opts = false;
+        }
+        prev_takes_arg = takes_arg;
+    }
+    true
+}
+
+fn render_word(a: &str, p: &Pids, me: &str) -> String {
+    match a {
+        "@V1" => p.v1.to_string(),
+        "@V2" => p.v2.to_string(),
+        "@V3" => p.v3.to_string(),
+        "@-G1" => format!("-{}", p.v1),
+        "@-G2" => format!("-{}", p.v2),
+        "@NONE" => p.none.to_string(),
+        "@ME" => me.to_string(),
+        _ => quote(a),
+    }
+}
+
+fn render_words(w: &[String], p: &Pids, me: &str) -> String {
+    w.iter().map(|a| render_word(a, p, me)).collect::<Vec<_>>().join(" ")
+}
+
+/// The script of one case; the number of marks it contains.
+fn render_case(c: &Case, p: &Pids) -> (String, usize) {
+    let po = if c.po { "set -o portable; " } else { "" };
+    match c.fam.as_str() {
+        "send" | "list" => (format!("({po}kill {})\nmark\n", render_words(&c.w, p, "")), 1),
+        "self" => {
+            let (on, off) = if c.po { ("set -o portable\n", "set +o portable\n") } else { ("", "") };
+            (format!("{on}kill {}\nmark\n{off}", render_words(&c.w, p, "$$")), 1)
+        }
+        "die" => (format!("(mypid; {po}kill {})\nmark\nkill -l \"$m\"\nmark\n", render_words(&c.w, p, "\"$p\"")), 2),
+        "trap" => {
+            let words = render_words(&c.w, p, "");
+            if c.w.first().map(|s| s.as_str()) == Some("-p") {
+                (format!("(trap {words})\nmark\n"), 1)
+            } else {
+                let conds = render_words(&c.w[1.min(c.w.len())..], p, "");
+                (format!("(trap {words})\nmark\n(trap {words}; trap -p {conds})\nmark\n"), 2)
+            }
+        }
+        "trapall" => ("(trap -p)\nmark\n".to_string(), 1),
+        _ => (String::new(), 0),
+    }
+}
+
+fn tokens(text: &str) -> Vec<Vec<String>> {
+    let mut lines: Vec<&str> = text.split('\n').collect();
+    if lines.last() == Some(&"") {
+        lines.pop();
+    }
+    lines.iter().map(|l| l.split_whitespace().map(|s| s.to_string()).collect()).collect()
+}
+
+/// Cuts the next `n` marked segments off the two streams.
+fn cut<'a>(out: &mut &'a str, err: &mut &'a str, n: usize) -> Option<Vec<(i64, &'a str, bool)>> {
+    let mut res = vec![];
+    for _ in 0..n {
+        let p = out.find("@@")?;
+        let text = &out[..p];
+        let tail = &out[p + 2..];
+        let q = tail.find("@@\n")?;
+        let st: i64 = tail[..q].parse().ok()?;
+        *out = &tail[q + 3..];
+        let e = err.find("@@\n")?;
+        let etext = &err[..e];
+        *err = &err[e + 3..];
+        res.push((st, text, !etext.is_empty()));
+    }
+    Some(res)
+}
+
+struct Ran {
+    out: String,
+    err: String,
+    completed: bool,
+    outcome: String,
+}
+
+trait Backend {
+    fn name(&self) -> &'static str;
+    /// Creates the sacrificial processes of `n` cases.
+    fn victims(&mut self, n: usize) -> Vec<Pids>;
+    fn run(&mut self, script: &str, pids: &[Pids]) -> Ran;
+    /// (state, pending) of a sacrificial process after the run.
+    fn observe(&mut self, pid: i32) -> (String, Vec<i64>);
+    fn cleanup(&mut self, pids: &[Pids]);
+}
+
+// ---- simulated -------------------------------------------------------------
+struct Sim {
+    state: Option<Rc<std::cell::RefCell<vs::SystemState>>>,
+}
+
+impl Backend for Sim {
+    fn name(&self) -> &'static str {
+        "sim"
+    }
+    fn victims(&mut self, n: usize) -> Vec<Pids> {
+        (0..n).map(|j| { let b = 5000 + 10 * j as i32; Pids { v1: b + 1, v2: b + 2, v3: b + 3, none: 4999 } }).collect()
+    }
+    fn run(&mut self, script: &str, pids: &[Pids]) -> Ran {
+        let mut cfg = ShellCfg::stdin_script(script.as_bytes());
+        cfg.step_limit = 50_000_000;
+        let pids: Vec<Pids> = pids.to_vec();
+        cfg.setup = Some(Box::new(move |env, state| {
+            register::<Sys>(env);
+            let mut st = state.borrow_mut();
+            for p in &pids {
+                for (pid, pgid) in [(p.v1, p.v1), (p.v2, p.v2), (p.v3, p.v1)] {
+                    let mut proc = vs::Process::with_parent_and_group(Pid(1), Pid(pgid));
+                    let all = (1..=1000).filter_map(|n| num_of(n));
+                    let _ = proc.block_signals(SigmaskOp::Set, all);
+                    st.processes.insert(Pid(pid), proc);
+                }
+            }
+        }));
+        match catch(move || run_shell(cfg)) {
+            Ok(r) => {
+                let completed = matches!(r.outcome, Outcome::Completed);
+                let ran = Ran { out: r.stdout_str(), err: r.stderr_str(), completed, outcome: r.outcome_str() };
+                self.state = Some(Rc::clone(&r.state));
+                ran
+            }
+            Err(msg) => {
+                self.state = None;
+                Ran { out: String::new(), err: String::new(), completed: false, outcome: format!("panic: {msg}") }
+            }
+        }
+    }
+    fn observe(&mut self, pid: i32) -> (String, Vec<i64>) {
+        let Some(state) = &self.state else { return ("gone".to_string(), vec![]) };
+        let st = state.borrow();
+        let Some(p) = st.processes.get(&Pid(pid)) else { return ("gone".to_string(), vec![]) };
+        let state = match p.state() {
+            ProcessState::Running => "run".to_string(),
+            ProcessState::Halted(ProcessResult::Signaled { signal, .. }) => format!("sig:{}", signal.as_raw()),
+            ProcessState::Halted(ProcessResult::Stopped(signal)) => format!("stop:{}", signal.as_raw()),
+            ProcessState::Halted(ProcessResult::Exited(e)) => format!("exit:{}", e.0),
+        };
+        let mut pend = vec![];
+        for n in 1..=1000i64 {
+            if let Some(num) = num_of(n) {
+                if p.pending_signals().contains(num) == Ok(true) {
+                    pend.push(n);
+                }
+            }
+        }
+        (state, pend)
+    }
+    fn cleanup(&mut self, _pids: &[Pids]) {
+        self.state = None;
+    }
+}
+
+// ---- real (inside the PID namespace) ----------------------------------------
+struct Real;
+
+impl Backend for Real {
+    fn name(&self) -> &'static str {
+        "real"
+    }
+    fn victims(&mut self, n: usize) -> Vec<Pids> {
+        (0..n)
+            .map(|_| {
+                let v1 = spawn_victim(0);
+                let v2 = spawn_victim(0);
+                let v3 = spawn_victim(v1);
+                assert!(v1 > 1000 && v2 > 1000 && v3 > 1000, "victim pids {v1} {v2} {v3}");
+                Pids { v1, v2, v3, none: 4_000_000 }
+            })
+            .collect()
+    }
+    fn run(&mut self, script: &str, _pids: &[Pids]) -> Ran {
+        let mut cfg = RealCfg::command("", true);
+        cfg.args = vec![];
+        cfg.stdin = script.as_bytes().to_vec();
+        cfg.timeout = std::time::Duration::from_secs(60);
+        cfg.env.push(("YV_CHILD".into(), "none".into()));
+        cfg.env.push(("YV_G14".into(), "shell".into()));
+        let r = run_real(&cfg);
+        Ran {
+            out: String::from_utf8_lossy(&r.stdout).into_owned(),
+            err: String::from_utf8_lossy(&r.stderr).into_owned(),
+            completed: !r.timed_out && r.status == 0,
+            outcome: if r.timed_out { "timeout".to_string() } else { format!("status {}", r.status) },
+        }
+    }
+    fn observe(&mut self, pid: i32) -> (String, Vec<i64>) {
+        observe_victim(pid)
+    }
+    fn cleanup(&mut self, pids: &[Pids]) {
+        for p in pids {
+            for v in [p.v3, p.v2, p.v1] {
+                reap_victim(v);
+            }
+        }
+    }
+}
+
+fn needs_victims(c: &Case) -> bool {
+    c.fam == "send"
+}
+
+fn self_prelude(plat: &Value) -> String {
+    // traps by number on everything that can be trapped
+    let mut nums: Vec<i64> = plat["names"].as_array().unwrap().iter().map(|e| e["v"].as_i64().unwrap()).collect();
+    nums.extend(plat["rtmin"].as_i64().unwrap()..=plat["rtmax"].as_i64().unwrap());
+    nums.sort();
+    nums.dedup();
+    let kill = num_named(plat, "KILL");
+    let stop = num_named(plat, "STOP");
+    let mut s = String::new();
+    for n in nums {
+        if n != kill && n != stop {
+            s.push_str(&format!("trap 'echo T{n}' {n}\n"));
+        }
+    }
+    s
+}
+
+fn num_named(plat: &Value, name: &str) -> i64 {
+    plat["names"].as_array().unwrap().iter().find(|e| e["n"] == name).map_or(-1, |e| e["v"].as_i64().unwrap())
+}
+
+/// On the real kernel some cases cannot be observed: a SEGV or BUS sent by
+/// kill() to a Rust process is swallowed by the handler of the Rust runtime.
+fn skip_reason(backend: &str, plat: &Value, c: &Case) -> Option<&'static str> {
+    if matches!(c.fam.as_str(), "send" | "self" | "die") && !safe_kill_words(&c.w) {
+        return Some("numeric-operand");
+    }
+    if backend == "real" && c.fam == "die" {
+        for nm in ["SEGV", "BUS"] {
+            let n = num_named(plat, nm);
+            if c.w.iter().any(|a| a.to_ascii_uppercase().contains(nm) || *a == format!("-{n}") || *a == n.to_string()) {
+                return Some("rust-runtime-handler");
+            }
+        }
+    }
+    None
+}
+
+/// Runs a batch of shell-level cases of one family kind in one shell.
+fn run_batch(b: &mut dyn Backend, plat: &Value, cases: &[Case], single: bool) -> Vec<Obs> {
+    let nv = cases.iter().filter(|c| needs_victims(c)).count();
+    let vict = b.victims(nv);
+    let mut pids = vec![];
+    let mut k = 0;
+    for c in cases {
+        if needs_victims(c) {
+            pids.push(vict[k]);
+            k += 1;
+        } else {
+            pids.push(Pids::default());
+        }
+    }
+    let mut script = String::new();
+    if cases.iter().any(|c| c.fam == "self") {
+        script.push_str(&self_prelude(plat));
+    }
+    let mut marks = vec![];
+    for (c, p) in cases.iter().zip(&pids) {
+        let (text, n) = render_case(c, p);
+        script.push_str(&text);
+        marks.push(n);
+    }
+    let ran = b.run(&script, &vict);
+    let mut out: &str = &ran.out;
+    let mut err: &str = &ran.err;
+    let mut res: Vec<Option<Obs>> = vec![];
+    let mut broken = false;
+    for (i, c) in cases.iter().enumerate() {
+        if broken {
+            res.push(None);
+            continue;
+        }
+        match cut(&mut out, &mut err, marks[i]) {
+            Some(segs) => {
+                let mut o = Obs { done: true, st: segs[0].0, err: segs[0].2, out: tokens(segs[0].1), st2: -1, r: -1, ..Default::default() };
+                if segs.len() > 1 {
+                    o.st2 = segs[1].0;
+                    o.out2 = tokens(segs[1].1);
+                }
+                if needs_victims(c) {
+                    let p = pids[i];
+                    for (v, pid) in [("V1", p.v1), ("V2", p.v2), ("V3", p.v3)] {
+                        let (state, pend) = b.observe(pid);
+                        o.recv.push(json!({"v": v, "pend": pend, "state": state}));
+                    }
+                }
+                res.push(Some(o));
+            }
+            None => {
+                broken = true;
+                res.push(None);
+            }
+        }
+    }
+    b.cleanup(&vict);
+    let mut obs = vec![];
+    for (i, r) in res.into_iter().enumerate() {
+        match r {
+            Some(o) => obs.push(o),
+            None if single => obs.push(Obs {
+                done: false,
+                st: -1,
+                st2: -1,
+                r: -1,
+                note: format!("{}; stdout {:?}; stderr {:?}", ran.outcome, truncate(&ran.out), truncate(&ran.err)),
+                ..Default::default()
+            }),
+            None => {
+                // a batch that broke off: this case again, alone
+                let mut o = run_batch(b, plat, &cases[i..=i], true);
+                obs.push(o.remove(0));
+            }
+        }
+    }
+    let _ = ran.completed;
+    obs
+}
+
+fn truncate(s: &str) -> String {
+    s.chars().take(300).collect()
+}
+
+fn batch_size(fam: &str) -> usize {
+    match fam {
+        "send" => 40,
+        "self" => 60,
+        _ => 80,
+    }
+}
+
+fn process(b: &mut dyn Backend, plat: &Value, cases: &[Case], from: &str, out: &mut dyn Write, tally: &mut Tally) {
+    let sys = b.name();
+    // API cases directly; shell cases in batches per family
+    let mut by_fam: std::collections::BTreeMap<String, Vec<Case>> = Default::default();
+    for c in cases {
+        if c.fam == "law" {
+            continue;
+        }
+        if let Some(why) = skip_reason(sys, plat, c) {
+            *tally.skipped.entry(why.to_string()).or_default() += 1;
+            continue;
+        }
+        if c.fam == "api" {
+            let o = run_api(sys, c);
+            writeln!(out, "{}", record(sys, from, c, &o)).unwrap();
+            tally.count(c);
+            continue;
+        }
+        by_fam.entry(c.fam.clone()).or_default().push(c.clone());
+    }
+    for (fam, list) in by_fam {
+        for chunk in list.chunks(batch_size(&fam)) {
+            let obs = run_batch(b, plat, chunk, false);
+            for (c, o) in chunk.iter().zip(&obs) {
+                writeln!(out, "{}", record(sys, from, c, o)).unwrap();
+                tally.count(c);
+                if !o.done {
+                    tally.not_done += 1;
+                }
+            }
+            tally.runs += 1;
+        }
+    }
+}
+
+#[derive(Default)]
+struct Tally {
+    cases: usize,
+    runs: usize,
+    not_done: usize,
+    by_fam: std::collections::BTreeMap<String, usize>,
+    by_kind: std::collections::BTreeMap<String, usize>,
+    skipped: std::collections::BTreeMap<String, usize>,
+}
+
+impl Tally {
+    fn count(&mut self, c: &Case) {
+        self.cases += 1;
+        *self.by_fam.entry(c.fam.clone()).or_default() += 1;
+        *self.by_kind.entry(format!("{}:{}", c.fam, c.xk)).or_default() += 1;
+    }
+    fn json(&self) -> Value {
+        json!({"cases": self.cases, "shell_runs": self.runs, "not_done": self.not_done, "by_family": self.by_fam,
+               "by_expected_kind": self.by_kind, "skipped": self.skipped})
+    }
+}
+
+// ---------------------------------------------------------------------------
+// the arena: a PID namespace of our own for the real side
+// ---------------------------------------------------------------------------
+/// Re-executes this program inside a new PID (and mount) namespace; the child
+/// is process 1 there and runs `args` with YV_G14=arena-inner.
+fn enter_arena(args: &[String]) -> ! {
+    let exe = std::env::current_exe().expect("current_exe");
+    let base = std::env::var("VERIF_SCRATCH").unwrap_or_else(|_| "/verif".to_string());
+    let scratch = format!("{base}/work/G14-arena-{}", std::process::id());
+    let _ = std::fs::create_dir_all(&scratch);
+    unsafe {
+        if libc::unshare(libc::CLONE_NEWPID | libc::CLONE_NEWNS) != 0 {
+            eprintln!("yv-g14: unshare failed: {}", std::io::Error::last_os_error());
+            std::process::exit(2);
+        }
+    }
+    let st = std::process::Command::new(exe).args(args).env("YV_G14", "arena-inner").env("VERIF_SCRATCH", &scratch).status();
+    let _ = std::fs::remove_dir_all(&scratch);
+    match st {
+        Ok(s) => std::process::exit(s.code().unwrap_or(2)),
+        Err(e) => {
+            eprintln!("yv-g14: arena: {e}");
+            std::process::exit(2)
+        }
+    }
+}
+
+fn arena_setup() {
+    assert_eq!(std::process::id(), 1, "not process 1 of a new PID namespace");
+    unsafe {
+        let root = std::ffi::CString::new("/").unwrap();
+        let procp = std::ffi::CString::new("/proc").unwrap();
+        let proct = std::ffi::CString::new("proc").unwrap();
+        if libc::mount(std::ptr::null(), root.as_ptr(), std::ptr::null(), libc::MS_REC | libc::MS_PRIVATE, std::ptr::null()) != 0 {
+            eprintln!("yv-g14: making / private failed: {}", std::io::Error::last_os_error());
+            std::process::exit(2);
+        }
+        if libc::mount(proct.as_ptr(), procp.as_ptr(), proct.as_ptr(), 0, std::ptr::null()) != 0 {
+            eprintln!("yv-g14: mounting /proc failed: {}", std::io::Error::last_os_error());
+            std::process::exit(2);
+        }
+        // burn process IDs: those of the sacrificial processes must not look
+        // like signal numbers or exit statuses
+        loop {
+            let pid = libc::fork();
+            if pid == 0 {
+                libc::_exit(0);
+            }
+            let mut st = 0;
+            libc::waitpid(pid, &mut st, 0);
+            if pid > 1200 || pid < 0 {
+                break;
+            }
+        }
+    }
+}
+
+// ---------------------------------------------------------------------------
+// sub-commands
+// ---------------------------------------------------------------------------
+fn read_cases(path: &str) -> Vec<Case> {
+    let f = std::io::BufReader::new(std::fs::File::open(path).expect("open --in"));
+    f.lines().map_while(Result::ok).filter(|l| !l.trim().is_empty()).map(|l| case_of(&serde_json::from_str(&l).expect("case line"))).collect()
+}
+
+fn backend(sys: &str) -> Box<dyn Backend> {
+    if sys == "sim" { Box::new(Sim { state: None }) } else { Box::new(Real) }
+}
+
+fn replay(args: &[String]) {
+    let sys = opt(args, "--sys").unwrap_or("sim").to_string();
+    let plat: Value = serde_json::from_str(&std::fs::read_to_string(opt(args, "--platform").expect("--platform")).unwrap()).unwrap();
+    let cases = read_cases(opt(args, "--in").expect("--in"));
+    let from = opt(args, "--from").unwrap_or("gen").to_string();
+    let mut out = std::io::BufWriter::new(std::fs::File::create(opt(args, "--out").expect("--out")).unwrap());
+    let mut tally = Tally::default();
+    let mut b = backend(&sys);
+    process(b.as_mut(), &plat, &cases, &from, &mut out, &mut tally);
+    out.flush().unwrap();
+    println!("{}", tally.json());
+}
+
+fn pick<'a, T>(rng: &mut StdRng, xs: &'a [T]) -> &'a T {
+    &xs[rng.gen_range(0..xs.len())]
+}
+
+fn random_spelling(rng: &mut StdRng, nm: &str) -> String {
+    let base: String = match rng.gen_range(0..5) {
+        0 | 1 => nm.to_string(),
+        2 => nm.to_ascii_lowercase(),
+        3 => nm.chars().enumerate().map(|(i, ch)| if i % 2 == 0 { ch.to_ascii_lowercase() } else { ch }).collect(),
+        _ => nm.chars().map(|ch| if rng.gen_bool(0.5) { ch.to_ascii_lowercase() } else { ch }).collect(),
+    };
+    match rng.gen_range(0..6) {
+        0 => format!("SIG{base}"),
+        1 => format!("sig{base}"),
+        _ => base,
+    }
+}
+
+fn random_spec(rng: &mut StdRng, plat: &Value) -> String {
+    let names: Vec<String> = plat["names"].as_array().unwrap().iter().map(|e| e["n"].as_str().unwrap().to_string()).collect();
+    let (lo, hi) = (plat["rtmin"].as_i64().unwrap(), plat["rtmax"].as_i64().unwrap());
+    let span = hi - lo;
+    match rng.gen_range(0..12) {
+        0..=4 => {
+            let nm = pick(rng, &names).clone();
+            random_spelling(rng, &nm)
+        }
+        5 => {
+            let k = rng.gen_range(0..=span + 2);
+            let nm = if rng.gen_bool(0.5) { format!("RTMIN+{k}") } else { format!("RTMAX-{k}") };
+            random_spelling(rng, &nm)
+        }
+        6 | 7 => rng.gen_range(0..=hi + 3).to_string(),
+        8 => pick(rng, &["128", "129", "255", "256", "384", "399", "1000", "65535"]).to_string(),
+        9 => pick(rng, &["RTMIN", "RTMAX", "RTMIN+0", "RTMAX-0", "RTMIN-1", "RTMAX+1", "rtmin", "SIGRTMAX"]).to_string(),
+        _ => pick(rng, &["", "FOO", "EXIT", "TERMX", "SIG", " INT", "INT ", "+15", "-15", "015", "1x", "SIGSIGINT", "T"]).to_string(),
+    }
+}
+
+fn random_case(rng: &mut StdRng, plat: &Value) -> Case {
+    let mut c = Case { fam: String::new(), po: rng.gen_bool(0.25), w: vec![], op: String::new(), t: String::new(), n: 0, xk: "random".into() };
+    let targets = ["@V1", "@V2", "@V3", "@NONE"];
+    match rng.gen_range(0..10) {
+        0..=3 => {
+            c.fam = "send".into();
+            let x = random_spec(rng, plat);
+            match rng.gen_range(0..7) {
+                0 => c.w.extend(["-s".to_string(), x]),
+                1 => c.w.push(format!("-s{x}")),
+                2 => c.w.extend(["-n".to_string(), x]),
+                3 => c.w.push(format!("-n{x}")),
+                4 | 5 => c.w.push(format!("-{x}")),
+                _ => {}
+            }
+            if rng.gen_bool(0.1) {
+                c.w.push(pick(rng, &["-l", "-v", "-q", "-s", "-n"]).to_string());
+            }
+            let dd = rng.gen_bool(0.4);
+            if dd {
+                c.w.push("--".into());
+            }
+            let k = rng.gen_range(0..=3);
+            for i in 0..k {
+                if i == 0 && dd && rng.gen_bool(0.5) || i > 0 && rng.gen_bool(0.3) {
+                    c.w.push(pick(rng, &["@-G1", "@-G2"]).to_string());
+                } else if rng.gen_bool(0.08) {
+                    c.w.push(pick(rng, &["abc", "", "1x"]).to_string());
+                } else {
+                    c.w.push(pick(rng, &targets).to_string());
+                }
+            }
+            if !dd && rng.gen_bool(0.05) {
+                c.w.push("@-G1".into());
+            }
+        }
+        4 | 5 => {
+            c.fam = "list".into();
+            c.w.push(pick(rng, &["-l", "-l", "-l", "-v", "-lv"]).to_string());
+            if rng.gen_bool(0.15) {
+                c.w.push("--".into());
+            }
+            let k = *pick(rng, &[0usize, 1, 1, 1, 2, 3]);
+            let hi = plat["rtmax"].as_i64().unwrap();
+            for _ in 0..k {
+                let x = match rng.gen_range(0..4) {
+                    0 => random_spec(rng, plat),
+                    1 => rng.gen_range(0..=hi + 3).to_string(),
+                    2 => (128 + rng.gen_range(0..=hi + 3)).to_string(),
+                    _ => (384 + rng.gen_range(0..=hi + 3)).to_string(),
+                };
+                c.w.push(x);
+            }
+        }
+        6 | 7 => {
+            c.fam = "trap".into();
+            c.po = false;
+            c.w.push(pick(rng, &["-p", "-", ""]).to_string());
+            let k = *pick(rng, &[1usize, 1, 1, 2, 3]);
+            for _ in 0..k {
+                let x = match rng.gen_range(0..6) {
+                    0 => pick(rng, &["EXIT", "0", "exit", "SIGEXIT", "00"]).to_string(),
+                    _ => random_spec(rng, plat),
+                };
+                c.w.push(x);
+            }
+        }
+        8 => {
+            c.fam = "self".into();
+            let x = random_spec(rng, plat);
+            match rng.gen_range(0..3) {
+                0 => c.w.extend(["-s".to_string(), x]),
+                1 => c.w.extend(["-n".to_string(), x]),
+                _ => c.w.push(format!("-{x}")),
+            }
+            c.w.push("@ME".into());
+        }
+        _ => {
+            c.fam = "api".into();
+            c.po = false;
+            let hi = plat["rtmax"].as_i64().unwrap();
+            c.op = pick(rng, &["str2sig", "sig2str", "tosignum", "validate", "fromstr", "parsesig0", "parsesig1", "tosignal0", "tosignal1"]).to_string();
+            match c.op.as_str() {
+                "str2sig" | "fromstr" | "parsesig0" | "parsesig1" => c.t = random_spec(rng, plat),
+                "tosignal0" | "tosignal1" => c.n = rng.gen_range(-2..=384 + hi + 5),
+                _ => c.n = rng.gen_range(-2..=hi + 4),
+            }
+        }
+    }
+    c
+}
+
+/// A random self case must not stop or kill the shell that runs the batch.
+fn self_is_harmless(plat: &Value, c: &Case) -> bool {
+    let kill = num_named(plat, "KILL");
+    let stop = num_named(plat, "STOP");
+    let bad = |a: &String| {
+        let u = a.to_ascii_uppercase();
+        u.contains("KILL") || u.contains("STOP") || u.trim_start_matches('-') == kill.to_string() || u.trim_start_matches('-') == stop.to_string()
+    };
+    !c.w.iter().any(bad)
+}
+
+fn random(args: &[String]) {
+    let sys = opt(args, "--sys").unwrap_or("sim").to_string();
+    let plat: Value = serde_json::from_str(&std::fs::read_to_string(opt(args, "--platform").expect("--platform")).unwrap()).unwrap();
+    let n = opt_usize(args, "--n", 1000);
+    let mut rng = StdRng::seed_from_u64(seed().wrapping_mul(0x9E3779B97F4A7C15) ^ if sys == "sim" { 14 } else { 41 });
+    let mut cases = vec![];
+    while cases.len() < n {
+        let c = random_case(&mut rng, &plat);
+        if c.fam == "self" && !self_is_harmless(&plat, &c) {
+            continue;
+        }
+        cases.push(c);
+    }
+    let mut out = std::io::BufWriter::new(std::fs::File::create(opt(args, "--out").expect("--out")).unwrap());
+    let mut tally = Tally::default();
+    let mut b = backend(&sys);
+    process(b.as_mut(), &plat, &cases, "random", &mut out, &mut tally);
+    out.flush().unwrap();
+    println!("{}", tally.json());
+}
+
 fn main() {
-    eprintln!("yv-g14: not implemented yet");
-    std::process::exit(2);
+    match std::env::var("YV_G14").as_deref() {
+        Ok("shell") => real_shell_child(),
+        Ok("arena-inner") => {
+            unsafe { std::env::remove_var("YV_G14") };
+            arena_setup();
+        }
+        _ => {}
+    }
+    yvcommon::real::maybe_child_main();
+    quiet_panics();
+    let args: Vec<String> = std::env::args().skip(1).collect();
+    let inner = std::process::id() == 1;
+    let sys = opt(&args, "--sys").unwrap_or("sim").to_string();
+    match args.first().map(|s| s.as_str()) {
+        Some("platform") => println!("{}", platform(&sys)),
+        Some("replay") | Some("random") if sys == "real" && !inner => enter_arena(&args),
+        Some("replay") => replay(&args),
+        Some("random") => random(&args),
+        _ => {
+            eprintln!("usage: yv-g14 platform|replay|random --sys sim|real ...");
+            std::process::exit(2);
+        }
+    }
 }
